@@ -222,7 +222,8 @@ func execC08(seg []Ev) []Ev {
 					c[i] = int(a.AsLong())
 				}
 			}
-			if allInt {
+			// (in which unit a seventh component counts - fractions of a second - is not stated: only whole-second components are compared)
+			if allInt && c[6] == 0 {
 				e["hostsec"] = strconv.FormatInt(time.Date(c[0], time.Month(c[1]), c[2], c[3], c[4], c[5], c[6], time.Local).Unix(), 10)
 			}
 		}
